@@ -116,6 +116,14 @@ def main(argv=None):
     t0 = time.time()
     tier = a.tier if a.tier in ("quick", "thorough") else "quick"
     timeout_ms = 10000 if tier == "quick" else 60000
+    # solver budgets are wall-clock: on a machine that is already busy (several checks started at once) they are stretched
+    # with the load, so that a verdict does not flip to `unknown` for lack of CPU (1 min load average per core, capped x4)
+    try:
+        load = os.getloadavg()[0] / max(1, (os.cpu_count() or 16))
+    except OSError:
+        load = 0.0
+    if load > 0.75:
+        timeout_ms = int(timeout_ms * min(4.0, 1.0 + 2.0 * load))
     os.environ["PYVC_TIER"] = tier        # read by pyvc.verify (quick_cases / thorough_cases / thorough_only); inherited by the pool
     types, contracts, specfuns, lemmas = registry.load()
     props = registry.closure(prop)
